@@ -60,6 +60,7 @@ func genC08(seed int64, tier string) *Scenario {
 		sc.Sched = RandomSched(r)
 	}
 	sc.Knobs["faulty"], sc.Knobs["anomalies"] = faulty, anomalies
+	sc.Plugin = r.Intn(3) == 0
 	names := append([]string(nil), c08Names...)
 	r.Shuffle(len(names), func(i, j int) { names[i], names[j] = names[j], names[i] })
 	names = names[:3+r.Intn(4)]
@@ -355,7 +356,8 @@ type c08Checkpoint struct {
 	view     map[string][]string
 	answers  []*Answer
 	folders  []string // the client's workspace folders at the checkpoint
-	dirty    string   // dirty-point check: the single dirty document
+	plugin   bool
+	dirty    string // dirty-point check: the single dirty document
 	reverted map[string]bool
 }
 
@@ -418,7 +420,7 @@ func checkC08(t *testing.T, sc *Scenario) *Verdict {
 				}
 				e.probe("c08.dirty-checkpoint-after-world-write")
 			}
-			cp := &c08Checkpoint{at: i, final: op.Arg == "final", disk: DiskFiles(), open: e.OpenDocs(), reverted: map[string]bool{}, folders: e.CurFolders()}
+			cp := &c08Checkpoint{at: i, final: op.Arg == "final", disk: DiskFiles(), open: e.OpenDocs(), reverted: map[string]bool{}, folders: e.CurFolders(), plugin: sc.Plugin}
 			for p, r := range e.Reverted {
 				if r {
 					cp.reverted[URI(p)] = true
@@ -467,7 +469,7 @@ func checkC08(t *testing.T, sc *Scenario) *Verdict {
 			}
 			continue
 		}
-		fresh := &Scenario{Prop: "C08", Files: cp.disk, InitOpts: sc.InitOpts, Folders: cp.folders}
+		fresh := &Scenario{Prop: "C08", Files: cp.disk, InitOpts: sc.InitOpts, Folders: cp.folders, Plugin: sc.Plugin}
 		for _, f := range cp.open {
 			fresh.Ops = append(fresh.Ops, Op{Kind: "open", Path: f.Path})
 		}
@@ -567,7 +569,7 @@ func c08DirtyCheck(t *testing.T, v *Verdict, cp *c08Checkpoint) string {
 		}
 	}
 	files = append(files, File{Path: cp.dirty, Data: buf})
-	fb := Run(t, &Scenario{Prop: "C08", Files: files, Folders: cp.folders}, Canonical(), Hooks{})
+	fb := Run(t, &Scenario{Prop: "C08", Files: files, Folders: cp.folders, Plugin: cp.plugin}, Canonical(), Hooks{})
 	v.absorb(fb)
 	uri := URI(cp.dirty)
 	want := onlyType1(fb.View[uri], true)
@@ -575,7 +577,7 @@ func c08DirtyCheck(t *testing.T, v *Verdict, cp *c08Checkpoint) string {
 	if len(want) == 0 {
 		tag = "saved-non-syntax"
 		if onDisk {
-			fd := Run(t, &Scenario{Prop: "C08", Files: cp.disk, Folders: cp.folders}, Canonical(), Hooks{})
+			fd := Run(t, &Scenario{Prop: "C08", Files: cp.disk, Folders: cp.folders, Plugin: cp.plugin}, Canonical(), Hooks{})
 			v.absorb(fd)
 			want = onlyType1(fd.View[uri], false)
 		}
